@@ -1,0 +1,27 @@
+//! Verification-only hook (cargo feature `verif-hooks`): lets a test harness point the S3 client at
+//! a loopback simulator. Compiled out entirely unless the feature is enabled.
+
+/// Environment variable holding the simulator endpoint, e.g. `http://127.0.0.1:4000`.
+pub const ENDPOINT_VARIABLE: &str = "NEXRAD_VERIF_S3_ENDPOINT";
+
+/// Rewrites `https://<bucket>.s3.amazonaws.com<rest>` to `<endpoint>/<bucket><rest>` when the
+/// endpoint variable is set; returns the URL unchanged otherwise.
+pub(crate) fn rewrite_url(url: String) -> String {
+    let endpoint = match std::env::var(ENDPOINT_VARIABLE) {
+        Ok(endpoint) if !endpoint.is_empty() => endpoint,
+        _ => return url,
+    };
+
+    const SCHEME: &str = "https://";
+    const HOST_SUFFIX: &str = ".s3.amazonaws.com";
+
+    if let Some(without_scheme) = url.strip_prefix(SCHEME) {
+        if let Some(suffix_position) = without_scheme.find(HOST_SUFFIX) {
+            let bucket = &without_scheme[..suffix_position];
+            let rest = &without_scheme[suffix_position + HOST_SUFFIX.len()..];
+            return format!("{}/{}{}", endpoint.trim_end_matches('/'), bucket, rest);
+        }
+    }
+
+    url
+}
